@@ -28,4 +28,39 @@ PROPS = {
                       "Excluded point (empty tag => panic) is exhibited by a theorem and replayed.",
         "assumptions": ["Go map semantics (distinct keys) = Filter.WF", "events have no empty tag (Event.Valid) — the excluded point is exhibited and replayed"],
     },
+    "C17": {
+        "lean_modules": ["MocProps.C17"],
+        "theorem_files": ["MocProps/C17.lean"],
+        "gen_groups": ["Mw", "Consts", "Matcher"],
+        "n_quick": 3000, "n_thorough": 30000, "thorough_seeds": 3,
+        "rule": "random stacks (1-3) of the 10 stateless limit middlewares with small limits, and random NIP-11 documents (nil, no limitation "
+                "block, any subset of the 7 limits), each driven through the real NewSimpleMiddleware plumbing with 3-14 client/server messages of all "
+                "types whose sizes sit below/at/above each limit (created_at with a >=5 s margin around the moving boundary, multi-byte content); "
+                "non-trivial = every case (a stack and a message sequence); distinct = distinct output line",
+        "level_text": "Full for decisions and composition: for every limit value, message and clock reading each stateless limit middleware forwards the "
+                      "message unchanged iff it respects the limit and otherwise answers exactly it with OK-false(id)/CLOSED(sub) (client_decision); server "
+                      "messages pass unchanged; a stack forwards iff all members accept and the reply is the outermost rejecter's (chain_forwards, "
+                      "chain_rejects); the NIP-11 chain is exactly the set limits, max_subscriptions innermost, identity without a limitation block "
+                      "(nip11_*; the builder's source text is regenerated and pinned by nip11_source_pinned). Conditions and reply texts are regenerated from "
+                      "handler.go on every run. The goroutine/channel plumbing of NewSimpleMiddleware is runtime-validated by the differential run.",
+        "level_note": "Trusted: Lean kernel + standard axioms; go2lean; harness/driver. Not modelled: goroutine scheduling inside NewSimpleMiddleware "
+                      "(validated with barrier messages, no timeouts); time.Now() (inputs keep a 5 s margin); negative limits (constructors panic) are outside the claim.",
+        "assumptions": ["events carry no empty tag and allow/deny filters have distinct #x names (what the gate guarantees)"],
+    },
+    "C18": {
+        "lean_modules": ["MocProps.C18"],
+        "theorem_files": ["MocProps/C18.lean"],
+        "gen_groups": ["Mw", "Consts"],
+        "n_quick": 6000, "n_thorough": 60000, "thorough_seeds": 3,
+        "rule": "stacks of MaxSubscriptions / RecvEventUniqueFilter / SendEventUniqueFilter (N and window sizes 1..4) over alphabets of 4 subscription "
+                "ids and 5 event ids, 4-16 messages per session, 1-3 CONCURRENT sessions on one middleware instance, each session compared with its own "
+                "model instance; non-trivial = every session; distinct = distinct output line",
+        "level_text": "Full (LRU contract assumed): over ALL histories the quota invariant |open| <= N holds (quota_never_exceeded), a REQ is forwarded iff its id "
+                      "is open or fewer than N are open, CLOSE frees the slot (quota_req, quota_close, quota_refines_spec); after ANY id sequence the LRU equals "
+                      "the last `size` distinct ids by most recent occurrence and the duplicate verdict is membership in that window (lru_is_window, "
+                      "recv_unique_step, send_unique_step, window_subset_seen); per-session state is independent (sessions_independent).",
+        "level_note": "Trusted: Lean kernel + standard axioms; go2lean; harness/driver; hashicorp/golang-lru modelled by hand (Get promotes, Add evicts the least "
+                      "recent) and validated by the differential run; real concurrency between sessions is exercised, not proved.",
+        "assumptions": ["hashicorp LRU contract", "per-session state is created in ServeNostr / ServeNostrStart (checked by concurrent sessions in the run)"],
+    },
 }
